@@ -123,6 +123,12 @@ def suite_call(ctx, case):
         a = [a[0][good]]; ref = [ref[0][good]]
     ok, why = C06.same_vals(a, ref, 1e-7)
     ctx.pred('call', case, ok, '%s (rank %d) differs from its definition: %s' % (call, n, why), key='C05:def:' + call.rstrip('01HP'))
+    if call == 'pmf' and p0.totalCorr.space == Space.Real:
+        # -kT ln g at points where g is EXACTLY zero is +infinity (not nan, which is what g < 0 gives)
+        zero = (p0.totalCorr.data == -1.0).reshape(-1)
+        if np.any(zero):
+            got = out.data.reshape(-1)[zero]
+            ctx.pred('call', case, bool(np.all(np.isposinf(got))), 'pmf where g = 0 exactly is %r, -kT ln 0 = +inf expected' % got[:3].tolist(), key='C05:def:pmf')
     # symmetry in the two type labels
     if isinstance(out, MatrixArray):
         sym = bool(np.allclose(out.data, out.data.transpose(0, 2, 1), rtol=1e-9, atol=1e-12 * (np.nanmax(np.abs(out.data)) + 1e-300), equal_nan=True))
@@ -194,6 +200,7 @@ def gen_hand_sys(rng, n, L):
         for t in range(rng.randint(2, n)): sd['dens'][t] = sd['dens'][0]
         sd['dens_group'] = True                                  # several densities assigned in one statement (density[['A','B']] = rho)
     if rng.random() < 0.3: sd['kT_assign'] = 1.0
+    if n >= 2 and rng.random() < 0.5: sd['diam_order'] = rng.sample(range(n), n) + ([0] if rng.random() < 0.5 else [])
     return sd
 
 def generate(ctx):
@@ -201,8 +208,9 @@ def generate(ctx):
     for q in range(ctx.n(40, 300)):
         n = rng.choice([1, 2, 2, 3, 3, 4])
         sd = gen_hand_sys(rng, n, rng.choice([8, 12, 16, 24]))
-        obj = ['hand', rng.randrange(10 ** 6)]
+        obj = ['hand', rng.randrange(10 ** 6)] + (['core'] if rng.random() < 0.35 else [])
         spaces = ''.join(rng.choice('RF') for _ in range(3))
+        if len(obj) > 2 and rng.random() < 0.7: spaces = 'R' + spaces[1:]
         for call in CALLS:
             case = {'sys': sd, 'obj': obj, 'call': call, 'spaces': spaces, 'again': rng.choice([None, 'pair', 'scale'])}
             ctx.case('call', case, n >= 2, tags=['again:%s' % case['again'], 'rank:%d' % n, 'call:' + call, 'spaces:' + spaces, 'equal-diam' if len(set(sd['diam'])) == 1 else 'unequal-diam'])
